@@ -221,6 +221,21 @@ func (c *ctx) rangeSection(r *lib.RNG, out chan<- batch) {
 		all := mkClaim("honest-all-no-proof", kvs[0].K, 0, len(kvs)-1, nil)
 		all.NoProof = true
 		eval(all)
+		if len(kvs) >= 2 {
+			bad := mkClaim("no-proof-element-dropped", kvs[0].K, 0, len(kvs)-1, nil)
+			bad.NoProof = true
+			di := rr.Intn(len(kvs))
+			bad.Keys = append(bad.Keys[:di:di], bad.Keys[di+1:]...)
+			bad.Values = append(bad.Values[:di:di], bad.Values[di+1:]...)
+			eval(bad)
+		}
+		{
+			bad := mkClaim("no-proof-value-changed", kvs[0].K, 0, len(kvs)-1, nil)
+			bad.NoProof = true
+			vi := rr.Intn(len(kvs))
+			bad.Values[vi] = bumpHex(bad.Values[vi])
+			eval(bad)
+		}
 		// 2. ranges lo..hi
 		for t := 0; t < 4; t++ {
 			lo := rr.Intn(len(kvs))
@@ -295,7 +310,8 @@ func (c *ctx) rangeSection(r *lib.RNG, out chan<- batch) {
 			eval(&RangeClaim{Impl: impl, Kind: "honest-empty-range", Trie: kvs, Root: rootHex, First: first, Proof: rp(first, first)})
 		}
 		if f, ok := bitsAdd(kvs[rr.Intn(len(kvs))].K, -1); ok && spec.truth(f) == "0" {
-			eval(&RangeClaim{Impl: impl, Kind: "empty-range-claimed-left-of-entries", Trie: kvs, Root: rootHex, First: f, Proof: rp(f, f)})
+			pf := rp(f, f)
+			eval(&RangeClaim{Impl: impl, Kind: "empty-range-claimed-left-of-entries:first-" + divergenceShape(pf, rootHex, f), Trie: kvs, Root: rootHex, First: f, Proof: pf})
 		}
 		// 3b. single-element claim "key holds <hash of an inner node>": the honest proof of a present key
 		// with the on-path child of the root node re-typed as a value node (all hashes stay right)
@@ -415,6 +431,28 @@ func (c *ctx) evalRange(cl *RangeClaim, pending *batch, rcfg, id string) {
 			pending.checks = append(pending.checks, check{line: sb.String(), impl: implAns, sig: "trie2:range-model:multi:" + cl.Kind, replay: func() any { return cc }})
 			res.Hit("range-model:multi:" + cl.Kind)
 		}
+	}
+	if impl == "trie2" && cl.NoProof && len(cl.Keys) == len(cl.Values) {
+		var sb strings.Builder
+		sb.WriteString("r2 all " + cl.Root + " 251")
+		for i := range cl.Keys {
+			sb.WriteString(" " + cl.Keys[i] + "=" + cl.Values[i])
+		}
+		sb.WriteString(" |")
+		_, facts := refRootFacts(hashFnOf("ped"), cl.Trie, true)
+		for _, f := range facts {
+			sb.WriteString(" " + f)
+		}
+		implAns := class
+		if class == "ok" {
+			implAns = "ok 0"
+			if more {
+				implAns = "ok 1"
+			}
+		}
+		cc := cl
+		pending.checks = append(pending.checks, check{line: sb.String(), impl: implAns, sig: "trie2:range-model:all:" + cl.Kind, replay: func() any { return cc }})
+		res.Hit("range-model:all:" + cl.Kind)
 	}
 	honest := strings.HasPrefix(cl.Kind, "honest")
 	// attribution to the cause: when two places of the trie hold identical subtrees the node set has
